@@ -650,6 +650,8 @@ def check_table_get(ctx):
 
 
 def check(ctx):
+    from . import tablefmt as _tf4
+    _tf4.check_iterator_statuses(ctx)   # a failed block read is an error, not 'key absent here, look in older files'
     from . import tablefmt as _tf3
     _tf3.check_policy_wrapping(ctx)   # filters are built and probed over user keys
     from . import tablefmt as _tf
